@@ -270,7 +270,7 @@ def main(argv=None):
         return undecided("spec drift: %s" % ex)
     except EngineError as ex:
         return undecided("engine: %s" % ex)
-    except (TypeError, AttributeError) as ex:
+    except (TypeError, AttributeError, z3.Z3Exception) as ex:
         if os.environ.get("PYVC_DEBUG"):
             raise
         return undecided("spec drift: a contract no longer fits the values the code produces (%s)" % ex)
